@@ -32,6 +32,10 @@ fn main() {
     match a(1) {
         Some("check") => {
             let (Some(id), Some(tier)) = (a(2), a(3)) else { usage() };
+            if run::engine_of(id) == "none" || !matches!(tier, "quick" | "thorough") {
+                eprintln!("HARNESS-ERROR no check for property {id:?} / tier {tier:?}");
+                std::process::exit(2);
+            }
             std::process::exit(check::check(id, tier));
         }
         Some("replay") => {
